@@ -60,6 +60,7 @@ func singleCall(f *ssa.Function, pred func(c *ssa.Call) bool) (*ssa.Call, int) {
 
 func rulesC18(w *World, r *Report) {
 	r.Rule("C18.R1", "constants: Value.String = strconv.FormatFloat(float64(v), 'f', -1, 64); Timestamp.String = ToStdTime().Format(UTCTimeLayout) with ToStdTime = time.Unix(int64(t),0).UTC() and UTCTimeLayout = \"2006-01-02T15:04:05Z\"", 3)
+	ruleHeaderStringFields(w, r, "C18.R1")
 	if vs := need(w, r, "C18.R1", w.Lib, "Value.String"); vs != nil {
 		c, n := singleCall(vs, func(c *ssa.Call) bool { return isCallToPkgFunc(c, "strconv", "FormatFloat") })
 		ok := n == 1 && strings.Join(callArgExprs(w, c), ",") == "p0,102,-1,64"
@@ -113,6 +114,7 @@ func rulesC18(w *World, r *Report) {
 
 	r.Rule("C18.R3", "derives-from: view prints printFileData(tow, header, tsList.PointsList(), ShowHeader) of exactly what readWhisperFile(SrcBase, SrcRelPath, ArchiveID, From, until, now) returned; printFileData prints h.String() under showHeader and ptsList.Print(w); TimeSeriesList.PointsList and TimeSeries.Points keep every slot (time from+i*step, i-th value)", 4)
 	if ve := need(w, r, "C18.R3", w.Cmd, "ViewCommand.execute"); ve != nil {
+		ruleUntilDefault(w, r, "C18.R3", ve, []*ssa.Function{fn(w.Cmd, "readWhisperFile")})
 		c, n := singleCall(ve, func(c *ssa.Call) bool { return c.Common().StaticCallee() == fn(w.Cmd, "printFileData") })
 		ok := n == 1
 		got := ""
@@ -219,6 +221,29 @@ func rulesC18(w *World, r *Report) {
 		r.Check(okLen && okOff, "C18.R4", "GetAllRawUnsortedPoints", w.pos(g.Pos()), "all N physical slots from offset in 12-byte steps", "GetAllRawUnsortedPoints does not read numberOfPoints slots starting at the archive's offset in pointSize steps")
 	}
 	ruleFilterByTimeRange(w, r, "C18.R4")
+	if vr := need(w, r, "C18.R4", w.Cmd, "ViewRawCommand.execute"); vr != nil {
+		ruleUntilDefault(w, r, "C18.R4", vr, []*ssa.Function{fn(w.Cmd, "filterPointsListByTimeRange")})
+		rd := callsTo(vr, fn(w.Cmd, "readWhisperFileRaw"))
+		okRd := len(rd) == 1
+		got := ""
+		if okRd {
+			es := callArgExprs(w, rd[0])
+			got = strings.Join(es, ", ")
+			okRd = got == "p0.SrcBase, p0.SrcRelPath, p0.ArchiveID"
+		}
+		r.Check(okRd, "C18.R4", "ViewRawCommand.execute:reads", w.pos(vr.Pos()), "reads readWhisperFileRaw(SrcBase, SrcRelPath, ArchiveID)", "view-raw does not read the command's file and archive selection: readWhisperFileRaw("+got+")")
+		if okRd {
+			fl := callsTo(vr, fn(w.Cmd, "filterPointsListByTimeRange"))
+			okFl := len(fl) == 1
+			if okFl {
+				as := fl[0].Common().Args
+				h, isH := as[0].(*ssa.Extract)
+				p, isP := as[1].(*ssa.Extract)
+				okFl = isH && isP && h.Tuple == ssa.Value(rd[0]) && h.Index == 0 && p.Tuple == ssa.Value(rd[0]) && p.Index == 1 && newExprCtx(w).expr(as[2]) == "p0.From"
+			}
+			r.Check(okFl, "C18.R4", "ViewRawCommand.execute:filters-read", w.pos(vr.Pos()), "filters (header, points) of the read by (From, until)", "view-raw does not filter the header and points it read by the command's From")
+		}
+	}
 	if fl := need(w, r, "C18.R4", w.Cmd, "filterPointsListByTimeRange"); fl != nil {
 		c, n := singleCall(fl, func(c *ssa.Call) bool { return c.Common().StaticCallee() == fn(w.Cmd, "filterPointsByTimeRange") })
 		ok := n == 1
@@ -821,6 +846,42 @@ func rulesC20(w *World, r *Report) {
 			if strings.HasSuffix(a, ".Time") {
 				tGot = v
 				tOK = strings.HasPrefix(v, "whispertool.Timestamp.Add(whispertool.Timestamp.Truncate(p6, p0.secondsPerPoint), ")
+				// the offset is -(N-1-i)*step, N the number of generated points and i the slot filled: the last
+				// slot is the truncated until itself and consecutive slots are one step apart
+				if c, isCall := st.Val.(*ssa.Call); tOK && isCall && len(c.Common().Args) == 2 {
+					var mk *ssa.MakeSlice
+					var idx ssa.Value
+					eachInstr(rp, func(in2 ssa.Instruction) {
+						if ia, ok := in2.(*ssa.IndexAddr); ok {
+							if m, ok := stripChangeType(ia.X).(*ssa.MakeSlice); ok {
+								mk, idx = m, ia.Index
+							}
+						}
+					})
+					if mk == nil {
+						tOK = false
+						tGot = "no made slice receives the points"
+					} else {
+						names := func(x ssa.Value) (string, bool) {
+							switch {
+							case x == mk.Len || stripConvert(x) == stripConvert(mk.Len):
+								return "N", true
+							case x == idx:
+								return "i", true
+							}
+							if s := ex.expr(x); s == "p0.secondsPerPoint" {
+								return "S", true
+							}
+							return "", false
+						}
+						got := polyOf(w, c.Common().Args[1], names)
+						want := poly{"N*S": -1, "S": 1, "S*i": 1}
+						if !got.equal(want) {
+							tOK = false
+							tGot = "offset " + got.String() + " (N points, slot i, step S); expected " + want.String()
+						}
+					}
+				}
 			}
 		})
 		// the plain random value is used only for slots strictly before the first slot that holds finer data
@@ -875,6 +936,11 @@ func rulesC20(w *World, r *Report) {
 		r.Check(tOK, "C20.R4", "randomPoints:times", w.pos(rp.Pos()), "times are offsets from the step-truncated until", "a generated time is not an offset from until.Truncate(step): "+tGot)
 	}
 	ruleTruncateEpoch(w, r, "C20.R4")
+	r.Rule("C20.R5", "sum of finer (decision diagrams): randomValWithHighSum adds exactly the finer values whose truncated time is t, stops only past t and adds no random remainder for a fully covered slot; randomPoints takes the start of the covered slots from the finer points iff they exist and start before this archive's until", 2)
+	ruleGenerateSumOfFiner(w, r, "C20.R5")
+	ruleGenerateChain(w, r, "C20.R5")
+	r.Rule("C20.R6", "the requested layout reaches the command: each flag.Value (aggregation method, xFilesFactor, retention list, file mode, timestamps) stores what it parsed into the option it was registered for before reporting success", 5)
+	ruleFlagSetStores(w, r, "C20.R6")
 	ruleC05R7(w, r, "C05.R7", 2, cmdReachableFrom(w, "GenerateCommand"))
 }
 
